@@ -152,6 +152,27 @@ def transplant(master, mit, regs, kept, ext, eit):
     return "".join(out), ratio, dropped
 
 
+def derives_of(parsed, it):
+    """the traits in the #[derive(..)] attributes of a type item"""
+    a_end = rtok._skip_attrs(parsed.toks, it.lo, it.hi)
+    txt = parsed.src[parsed.toks[it.lo].start:parsed.toks[a_end].start] if a_end > it.lo else ""
+    out = set()
+    for m in re.finditer(r"derive\s*\(([^)]*)\)", txt):
+        for t in m.group(1).split(","):
+            t = t.strip().split("::")[-1]
+            if t:
+                out.add(t)
+    return out
+
+
+SKELETON = {"if", "else", "match", "return", "while", "loop", "for", "break", "continue", "?", "=>"}
+
+
+def skeleton(tokens):
+    """the control-flow shape of a body: its branching, looping and exit tokens in order"""
+    return [t for t in tokens if t in SKELETON]
+
+
 def bodyless(txt):
     """the text of one function with its body replaced by `unimplemented!()` (signature and header clauses kept)"""
     p = Parsed(txt, "fn.rs")
@@ -231,10 +252,21 @@ def splice(prelude_src, master_src, ext_src, deferred, quarantined=()):
             else:
                 txt, ratio, dropped = transplant(master, it, regs, kept, ext, eit)
                 edits.append((master.toks[it.lo].start, master.toks[it.hi - 1].end, txt))
+                # Did the control-flow skeleton change?  The proof script inside a body (proof blocks, ghost
+                # lets, loop invariants) is tied to program points; if branches or exits were added, removed or
+                # reshaped, a clause may fail on the new code only because its proof hints sit on another path.
+                body_ghost = any(r[0] > it.body_lo for r in regs if r[2] == "ann")
                 report["functions"][name] = {"status": "transplanted", "exec_tokens": len(A), "similarity": round(ratio, 4),
-                                             "annotations_dropped_with_their_code": dropped}
+                                             "annotations_dropped_with_their_code": dropped,
+                                             "skeleton_changed": skeleton(K) != skeleton(A), "body_ghost": body_ghost}
         elif it.kind == "type":
             if it.name in etypes:
+                # the derive lists are part of what the contracts rely on (derived Clone / PartialEq / Copy /
+                # Default are taken with their std meaning): a derive that /repo no longer has is reported
+                md = derives_of(master, it) - {"Structural"}
+                ed = derives_of(ext, etypes[it.name])
+                if md != ed:
+                    report.setdefault("derives_changed", {})[it.name] = {"contracts": sorted(md), "repo": sorted(ed)}
                 K = [master.toks[k].text for k in rtok.type_kept(master.toks, it)]
                 A = [ext.toks[k].text for k in rtok.type_kept(ext.toks, etypes[it.name])]
                 if K == A:
